@@ -301,22 +301,24 @@ Qed.
 
 Lemma step_safe c st g now ev :
   inv g st ->
+  match ev with ENotify _ ids _ interested _ _ => forall id, In id interested -> In id ids | _ => True end ->
   let g' := ghost_step st g ev in
   inv g' (fst (step true c st now ev)) /\
   (forall p ids id, In (p, ids) (snd (step true c st now ev)) -> In id ids -> In (p, id) g').
 Proof.
-  intros Hinv. destruct ev as [peer ids atime interested susp scan | ids | | interested ch scan]; cbn [ghost_step step].
+  intros Hinv Hsub. destruct ev as [peer ids atime interested susp scan | ids | | interested ch scan]; cbn [ghost_step step].
   - (* notification *)
     unfold process_notification.
     destruct interested as [|i0 rest].
     { cbn. split; [exact Hinv | intros ? ? ? []]. }
     cbv iota. remember (i0 :: rest) as interested eqn:EI. clear EI i0 rest.
-    set (g' := map (fun id => (peer, id)) interested ++ g).
+    set (g' := map (fun id => (peer, id)) (filter (fun id => memN id ids) interested) ++ g).
     assert (Hi' : inv g' st).
     { destruct Hinv as [H1 H2]. split; [assumption|]. eapply covered_mono; [|exact H2]. intros x Hx. apply in_app_iff; auto. }
     pose proof (notify_fold_inv c now (mkA atime peer) susp g' interested st [] Hi') as H.
     assert (Hg : forall id, In id interested -> In (a_peer (mkA atime peer), id) g').
-    { intros id Hid. cbn. apply in_app_iff. left. apply in_map_iff. eauto. }
+    { intros id Hid. cbn. apply in_app_iff. left. apply in_map_iff. exists id. split; [reflexivity|].
+      apply filter_In. split; [assumption | apply memN_in, Hsub, Hid]. }
     specialize (H Hg).
     destruct (fold_left (notify_one c now (mkA atime peer) susp) interested (st, [])) as [st1 tf].
     destruct H as (Hi1 & _ & Htf). cbn [fst snd]. split.
@@ -365,17 +367,33 @@ Proof.
       apply filter_In. split; [assumption | now apply memN_in].
 Qed.
 
+Definition cfg_ex0 : cfg := mkCfg 320%Z 40%Z 60%Z 1620%Z 256%N 8%nat.
+
 Lemma inv_init t0 : inv [] (init t0).
 Proof. split; [constructor | intros e a []]. Qed.
 
-Lemma safe_run_all c tr : forall st g, inv g st -> safe_run c st g tr.
+Lemma safe_run_all c tr : forall st g, answers_sublist tr -> inv g st -> safe_run c st g tr.
 Proof.
-  induction tr as [|[now ev] tr IH]; intros st g Hinv; cbn [safe_run]; [exact I|].
-  destruct (step_safe c st g now ev Hinv) as [H1 H2]. split; [exact H2 | apply IH, H1].
+  induction tr as [|[now ev] tr IH]; intros st g Hs Hinv; cbn [safe_run]; [exact I|].
+  assert (Hev : match ev with ENotify _ ids _ interested _ _ => forall id, In id interested -> In id ids | _ => True end).
+  { destruct ev; try exact I. intros id Hid. eapply Hs; [left; reflexivity | exact Hid]. }
+  destruct (step_safe c st g now ev Hinv Hev) as [H1 H2]. split; [exact H2|].
+  apply IH; [|exact H1]. intros n p i a int su sc Hin. eapply Hs. right. exact Hin.
 Qed.
 
-Lemma fetcher_safety c t0 tr : safe_run c (init t0) [] tr.
-Proof. apply safe_run_all, inv_init. Qed.
+Lemma fetcher_safety c t0 tr : answers_sublist tr -> safe_run c (init t0) [] tr.
+Proof. intros H. apply safe_run_all; [exact H | apply inv_init]. Qed.
+
+(* without that hypothesis the statement is false, and so is the implementation-level claim: the
+   fetcher requests from the announcing peer whatever OnlyInterested returned *)
+Example fetcher_safety_needs_sublist :
+  ~ safe_run cfg_ex0 (init 0%Z) [] [(10%Z, ENotify 1%N [1%N] 10%Z [2%N] false [])].
+Proof.
+  cbn [safe_run]. intros [H _].
+  assert (H1 : In (1%N, [2%N]) (snd (step true cfg_ex0 (init 0%Z) 10%Z (ENotify 1%N [1%N] 10%Z [2%N] false []))))
+    by (vm_compute; auto).
+  specialize (H 1%N [2%N] 2%N H1 (or_introl eq_refl)). vm_compute in H. exact H.
+Qed.
 
 (* ====================== liveness: a pass is always pending ====================== *)
 
@@ -973,4 +991,225 @@ Lemma fetcher_fetching_was_requested c t0 tr id p ft :
 Proof.
   intros H. apply f_find_in in H.
   exact (fetch_hist_run c tr (init t0) [] (fun _ _ _ F => match F with end) id p ft H).
+Qed.
+
+(* ====================== round 2: the trace-level composition ====================== *)
+
+Lemma notify_keeps_timer c st now peer ids atime interested susp scan :
+  ann st <> [] -> tm (fst (step true c st now (ENotify peer ids atime interested susp scan))) = tm st.
+Proof.
+  intros Hne. cbn [step]. unfold process_notification.
+  destruct interested as [|i0 rest]; [reflexivity|].
+  remember (i0 :: rest) as interested eqn:EI. clear EI.
+  pose proof (notify_fold_tm c now (mkA atime peer) susp interested (st, [])) as Htm.
+  destruct (fold_left (notify_one c now (mkA atime peer) susp) interested (st, [])) as [st1 tf]. cbn [fst] in *.
+  destruct (ann st); [contradiction|]. cbn [is_nil andb]. exact Htm.
+Qed.
+
+Lemma received_keeps_timer c st now ids : tm (fst (step true c st now (EReceived ids))) = tm st.
+Proof.
+  cbn [step fst]. exact (proj1 (forget_fold_tm (fun _ : N => false) (fun x => x) ids st)).
+Qed.
+
+Lemma lru_find_ann_ne id st : lru_find id (ann st) <> None -> ann st <> [].
+Proof. intros H E. rewrite E in H. now apply H. Qed.
+
+Section Response.
+Variables (c : cfg) (lat : Z) (id : N) (B : Z).
+Hypothesis Hlat : (0 <= lat)%Z.
+
+Definition resp_inv (st : state) (tprev : Z) : Prop :=
+  (timer_chan st = true /\ (tprev <= B + lat)%Z) \/
+  (timer_chan st = false /\ exists due, timer_due st = Some due /\ (due <= B)%Z).
+
+Lemma response_run : forall tr st tprev,
+  resp_inv st tprev -> fair_run c lat st tprev tr -> held_until_pass c id st tr ->
+  (exists now ev, In (now, ev) tr /\ (B + 2 * lat < now)%Z) ->
+  exists p1 now_p i ch sc p2,
+    tr = p1 ++ (now_p, ETimer i ch sc) :: p2 /\
+    timer_chan (fst (run true c st p1)) = true /\
+    lru_find id (ann (fst (run true c st p1))) <> None /\ (now_p <= B + 2 * lat)%Z.
+Proof.
+  induction tr as [|[now ev] tr IH]; intros st tprev Hinv Hfair Hheld (nl & el & Hl & Hlate); [contradiction|].
+  cbn [fair_run] in Hfair. destruct Hfair as (Hf1 & Hf2 & Hf3).
+  cbn [held_until_pass] in Hheld. destruct Hheld as [Hh1 Hh2].
+  destruct Hinv as [[Hc Ht] | [Hc (due & Hd & Hdb)]].
+  - destruct (Hf2 Hc) as [(i & ch & sc & ->) Hn].
+    exists [], now, i, ch, sc, tr. cbn [app run fst]. repeat split; try assumption. lia.
+  - assert (Hnow : (now <= B + lat)%Z) by (specialize (Hf1 due Hd); lia).
+    assert (Htp : takes_pass st ev = false) by (destruct ev; cbn; auto).
+    rewrite Htp in Hh2.
+    assert (Hinv1 : resp_inv (fst (step true c st now ev)) now).
+    { unfold resp_inv, timer_chan, timer_due in *.
+      destruct ev as [peer ids atime interested susp scan | ids | | interested ch scan].
+      - right. rewrite notify_keeps_timer by (now apply (lru_find_ann_ne id)). eauto.
+      - right. rewrite received_keeps_timer. eauto.
+      - cbn [step]. rewrite Hd. destruct (due <=? now)%Z; cbn [fst tm t_chan t_armed]; [left; auto | right; eauto].
+      - cbn [step]. rewrite Hc. right. eauto. }
+    assert (Hl' : exists now' ev', In (now', ev') tr /\ (B + 2 * lat < now')%Z).
+    { destruct Hl as [E|Hl]; [inversion E; subst; lia | eauto]. }
+    destruct (IH _ _ Hinv1 Hf3 Hh2 Hl') as (p1 & now_p & i & ch & sc & p2 & E & H1 & H2 & H3).
+    exists ((now, ev) :: p1), now_p, i, ch, sc, p2. cbn [app run]. rewrite E.
+    destruct (step true c st now ev) as [st1 o]. cbn [fst] in *.
+    destruct (run true c st1 p1) as [st2 lg]. cbn [fst] in *. auto.
+Qed.
+End Response.
+
+(* Under timer fairness, from any reachable state that holds the item: if the item stays in the table
+   until the loop's next pass and the trace goes on long enough, the loop takes a pass within
+   ArriveTimeout + 2*lat, with the item still in the table. *)
+Lemma fetcher_response c lat t0 t st id tr :
+  cfg_wf c -> (0 <= lat)%Z -> reachT c t0 t st ->
+  fair_run c lat st t tr -> held_until_pass c id st tr ->
+  (exists now ev, In (now, ev) tr /\ (t + c_arrive c + 2 * lat < now)%Z) ->
+  exists p1 now_p i ch sc p2,
+    tr = p1 ++ (now_p, ETimer i ch sc) :: p2 /\
+    timer_chan (fst (run true c st p1)) = true /\
+    lru_find id (ann (fst (run true c st p1))) <> None /\ (now_p <= t + c_arrive c + 2 * lat)%Z.
+Proof.
+  intros Hwf Hlat Hr Hfair Hheld Hlate.
+  apply (response_run c lat id (t + c_arrive c)%Z Hlat tr st t); try assumption.
+  assert (Hne : ann st <> []).
+  { destruct tr as [|[n e] r]; cbn [held_until_pass] in Hheld; destruct Hheld as [H _]; now apply (lru_find_ann_ne id). }
+  unfold resp_inv.
+  destruct (fetcher_pass_pending c t0 t st Hwf Hr Hne) as [Hc | (due & Hd & Hb)].
+  - left. split; [assumption|]. destruct Hwf. lia.
+  - destruct (timer_chan st) eqn:Ec; [left; split; [reflexivity | destruct Hwf; lia] | right; eauto].
+Qed.
+
+(* ---------- stored announce lists are never empty ---------- *)
+Definition vals_ok (st : state) : Prop := forall e, In e (ann st) -> e_val e <> [].
+
+Lemma lru_get_incl id l e : In e (snd (lru_get id l)) -> In e l.
+Proof.
+  unfold lru_get. destruct (lru_find id l) as [f|] eqn:F; cbn [snd]; [|auto].
+  intros [E|H]; [rewrite <- E; exact (proj1 (lru_find_some _ _ _ F)) | eapply lru_del_incl; eauto].
+Qed.
+
+Lemma notify_one_vals c now d susp acc i : vals_ok (fst acc) -> vals_ok (fst (notify_one c now d susp acc i)).
+Proof.
+  destruct acc as [st tf]. cbn [fst]. intros H. unfold notify_one.
+  pose proof (lru_get_incl i (ann st)) as Hg. destruct (lru_get i (ann st)) as [got l1]. cbn [snd] in Hg.
+  set (anns := match got with Some v => v | None => [] end ++ [d]).
+  pose proof (lru_normalize_incl (S (length (mkE i (anns ++ [d]) (N.of_nat (length anns)) :: lru_del i l1)))
+                (c_hash_limit c) (mkE i (anns ++ [d]) (N.of_nat (length anns)) :: lru_del i l1)) as Hn.
+  unfold lru_add. destruct (lru_normalize _ _ _) as [l2 ev]. cbn [fst] in Hn.
+  assert (Hv : forall e, In e l2 -> e_val e <> []).
+  { intros e He. destruct (Hn e He) as [<-|He']; [cbn; destruct anns; discriminate|].
+    apply H, Hg. eapply lru_del_incl; eauto. }
+  destruct susp; [exact Hv|]. destruct (f_find i _); exact Hv.
+Qed.
+
+Lemma forget_vals id st : vals_ok st -> vals_ok (forget id st).
+Proof.
+  intros H. unfold forget. destruct (lru_find id (ann st)); [|exact H].
+  intros e' He. cbn [ann] in He. apply H. eapply lru_del_incl; eauto.
+Qed.
+
+Lemma pass_one_vals c now ch acc i : vals_ok (fst acc) -> vals_ok (fst (pass_one c now ch acc i)).
+Proof.
+  destruct acc as [st rq]. cbn [fst]. intros H. unfold pass_one.
+  pose proof (lru_get_incl i (ann st)) as Hg. destruct (lru_get i (ann st)) as [got l1]. cbn [snd] in Hg.
+  assert (H1 : forall f t, vals_ok (mkSt l1 f t)) by (intros f t e He; apply H, Hg, He).
+  destruct got as [[|oldest more]|]; cbn [fst]; [apply H1 | | exact H].
+  destruct (c_forget c <? now - a_time oldest)%Z; [apply forget_vals, H1|].
+  match goal with |- context [if ?b then _ else _] => destruct b end; apply H1.
+Qed.
+
+Lemma fold_vals {A} (f : state * A -> N -> state * A) l :
+  (forall acc i, vals_ok (fst acc) -> vals_ok (fst (f acc i))) ->
+  forall acc, vals_ok (fst acc) -> vals_ok (fst (fold_left f l acc)).
+Proof. intros Hf. induction l as [|i l IH]; intros acc H; cbn [fold_left]; [exact H | apply IH, Hf, H]. Qed.
+
+Lemma vals_ann st st' : ann st' = ann st -> vals_ok st -> vals_ok st'.
+Proof. unfold vals_ok. now intros ->. Qed.
+
+Lemma step_vals c st now ev : vals_ok st -> vals_ok (fst (step true c st now ev)).
+Proof.
+  intros H. destruct ev as [peer ids atime interested susp scan | ids | | interested ch scan]; cbn [step].
+  - unfold process_notification. destruct interested as [|i0 rest]; [exact H|].
+    remember (i0 :: rest) as interested eqn:EI. clear EI.
+    pose proof (fold_vals (notify_one c now (mkA atime peer) susp) interested
+                 (fun acc i => notify_one_vals c now (mkA atime peer) susp acc i) (st, []) H) as H1.
+    destruct (fold_left _ interested (st, [])) as [st1 tf]. cbn [fst] in *.
+    destruct (_ && _); [eapply vals_ann; [apply reschedule_ann | exact H1] | exact H1].
+  - cbn [fst]. revert st H. induction ids as [|i ids IH]; intros st H; cbn [fold_left]; [exact H | apply IH, forget_vals, H].
+  - destruct (t_armed (tm st)) as [due|]; [destruct (due <=? now)%Z|]; exact H.
+  - destruct (t_chan (tm st)); [|exact H]. unfold timer_pass.
+    set (st0 := mkSt (ann st) (fetching st) (mkT (t_armed (tm st)) false)).
+    pose proof (fold_vals (pass_one c now ch) interested (fun acc i => pass_one_vals c now ch acc i) (st0, []) H) as H1.
+    destruct (fold_left (pass_one c now ch) interested (st0, [])) as [st1 rq]. cbn [fst] in *.
+    eapply vals_ann; [apply reschedule_ann|].
+    generalize (lru_keys (ann st0)). intros l. revert st1 H1.
+    induction l as [|x l IH]; intros st1 H1; cbn [fold_left]; [exact H1|].
+    destruct (memN x interested); [apply IH, H1 | apply IH, forget_vals, H1].
+Qed.
+
+Lemma reachT_vals c t0 t st : reachT c t0 t st -> vals_ok st.
+Proof. intros H. induction H; [intros e [] | now apply step_vals]. Qed.
+
+Lemma run_vals c tr : forall st, vals_ok st -> vals_ok (fst (run true c st tr)).
+Proof.
+  induction tr as [|[now ev] tr IH]; intros st H; cbn [run]; [exact H|].
+  pose proof (step_vals c st now ev H) as H1. destruct (step true c st now ev) as [st1 o].
+  specialize (IH st1 H1). destruct (run true c st1 tr). exact IH.
+Qed.
+
+(* the composed bounded response: under timer fairness, an item that stays in the table, stays
+   interesting and young, has - at the latest ArriveTimeout + 2*lat after any moment at which it is held -
+   a request that is at most ArriveTimeout - GatherSlack old *)
+Lemma fetcher_response_request c lat t0 t st id tr :
+  cfg_wf c -> (c_slack c <= c_arrive c)%Z -> (0 <= lat)%Z -> reachT c t0 t st ->
+  fair_run c lat st t tr -> held_until_pass c id st tr ->
+  (exists now ev, In (now, ev) tr /\ (t + c_arrive c + 2 * lat < now)%Z) ->
+  (forall now i ch sc, In (now, ETimer i ch sc) tr -> In id i) ->
+  (forall p1 now i ch sc p2 e oldest more, tr = p1 ++ (now, ETimer i ch sc) :: p2 ->
+     lru_find id (ann (fst (run true c st p1))) = Some e -> e_val e = oldest :: more ->
+     (now - a_time oldest <= c_forget c)%Z) ->
+  exists p1 now_p i ch sc p2,
+    tr = p1 ++ (now_p, ETimer i ch sc) :: p2 /\ (now_p <= t + c_arrive c + 2 * lat)%Z /\
+    exists p ft, f_find id (fetching (fst (step true c (fst (run true c st p1)) now_p (ETimer i ch sc)))) = Some (p, ft) /\
+                 (now_p - ft <= c_arrive c - c_slack c)%Z.
+Proof.
+  intros Hwf Hs Hlat Hr Hfair Hheld Hlate Hint Hyoung.
+  destruct (fetcher_response c lat t0 t st id tr Hwf Hlat Hr Hfair Hheld Hlate)
+    as (p1 & now_p & i & ch & sc & p2 & E & Hc & Hh & Hb).
+  exists p1, now_p, i, ch, sc, p2. split; [exact E|]. split; [exact Hb|].
+  destruct (lru_find id (ann (fst (run true c st p1)))) as [e|] eqn:F; [|contradiction].
+  assert (Hv : e_val e <> []).
+  { apply (run_vals c p1 st (reachT_vals _ _ _ _ Hr)). exact (proj1 (lru_find_some _ _ _ F)). }
+  destruct (e_val e) as [|oldest more] eqn:Ev; [contradiction|].
+  assert (Hin : In id i) by (eapply Hint; rewrite E; apply in_app_iff; right; left; reflexivity).
+  pose proof (Hyoung p1 now_p i ch sc p2 e oldest more E F Ev) as Hy.
+  destruct (fetcher_pass_leaves_recent c _ now_p i ch sc id e oldest more Hs Hc Hin F Ev Hy) as [_ H].
+  exact H.
+Qed.
+
+(* non-vacuity of the hypotheses of fetcher_response_request *)
+Definition ex_resp_state : state :=
+  fst (step true cfg_ex (fst (step true cfg_ex (fst (step true cfg_ex (init 0%Z) 0%Z ETick)) 0%Z (ETimer [] [] [])))
+            80%Z (ENotify 1%N [7%N] 80%Z [7%N] true [])).
+Definition ex_resp_trace : list (Z * event) :=
+  [(400%Z, ETick); (400%Z, ETimer [7%N] [] []); (720%Z, ETick)].
+
+Example ex_resp_hyps :
+  reachT cfg_ex 0%Z 80%Z ex_resp_state /\
+  fair_run cfg_ex 0%Z ex_resp_state 80%Z ex_resp_trace /\
+  held_until_pass cfg_ex 7%N ex_resp_state ex_resp_trace /\
+  snd (run true cfg_ex ex_resp_state ex_resp_trace) = [(400%Z, (1%N, [7%N]))].
+Proof.
+  split; [|split; [|split]].
+  - unfold ex_resp_state. apply (reachT_step cfg_ex 0%Z 0%Z _ 80%Z); [|lia].
+    apply (reachT_step cfg_ex 0%Z 0%Z _ 0%Z); [|lia].
+    apply (reachT_step cfg_ex 0%Z 0%Z _ 0%Z); [constructor | lia].
+  - cbn [fair_run ex_resp_trace].
+    repeat match goal with |- _ /\ _ => split end; try exact I;
+      first [ intros due Hd; vm_compute in Hd; first [discriminate | inversion Hd; lia]
+            | intros Hc; vm_compute in Hc; discriminate
+            | intros _; split; [eexists _, _, _; reflexivity | lia] ].
+  - cbn [held_until_pass ex_resp_trace]. split; [vm_compute; discriminate|].
+    replace (takes_pass ex_resp_state ETick) with false by reflexivity.
+    split; [vm_compute; discriminate|].
+    match goal with |- if ?b then _ else _ => replace b with true by (vm_compute; reflexivity) end. exact I.
+  - vm_compute. reflexivity.
 Qed.
